@@ -5,13 +5,14 @@
   From the source (Extracted/Attributes.lean, regenerated every run): the schema rule `mergeSchema`, the fallback
   service name `defaultServiceName`, the default resource, the order of the sources in `create`, the attribute and
   environment names; the attribute container is the translated `BoundedAttributes` code (`Attributes.create`).
+  and — translated statement by statement — `DeepResourceDetector.detect` (`detectEnv`, `detectLoop`).
   Hand-written glue (shape-checked by the extractor, validated by the correspondence run):
   `Resource.__init__` (attributes go through an immutable `BoundedAttributes` without limits, `None` schema = ""),
-  the copy/update/construct frame of `merge`, the frame of `create`, `DeepResourceDetector.detect`.
+  the copy/update/construct frame of `merge`, the frame of `create`.
 
-  Modelled, not verified: `str.split`, `str.strip` (ASCII white space), `urllib.parse.unquote` for `%XX` escapes
-  below 0x80 (other escapes are outside the model: the generators mark such cases and they are judged by the oracle
-  only); `dict.update`.
+  Modelled, not verified: the text operations of Model/ResEnv.lean (`str.split`, `str.strip` (ASCII white space),
+  `urllib.parse.unquote` for `%XX` escapes below 0x80 — other escapes are outside the model: the generators mark such
+  cases and they are judged by the oracle only); `dict.update`.
 -/
 import DeepModel.Model.Attributes
 
@@ -45,60 +46,10 @@ def defaultRes : Res := Res.new (strAttrs defaultResource) none
 
 /-! ### DeepResourceDetector.detect -/
 
-def splitOn (c : Char) : List Char → List (List Char)
-  | [] => [[]]
-  | x :: xs =>
-    if x == c then [] :: splitOn c xs
-    else match splitOn c xs with
-      | [] => [[x]]
-      | p :: ps => (x :: p) :: ps
-
-/-- `item.split("=", maxsplit=1)`; `none` = no "=" (unpacking fails with ValueError) -/
-def splitFirst (c : Char) : List Char → Option (List Char × List Char)
-  | [] => none
-  | x :: xs =>
-    if x == c then some ([], xs)
-    else (splitFirst c xs).map (fun p => (x :: p.1, p.2))
-
-def hexVal (c : Char) : Option Nat :=
-  if '0' ≤ c ∧ c ≤ '9' then some (c.toNat - '0'.toNat)
-  else if 'a' ≤ c ∧ c ≤ 'f' then some (c.toNat - 'a'.toNat + 10)
-  else if 'A' ≤ c ∧ c ≤ 'F' then some (c.toNat - 'A'.toNat + 10)
-  else none
-
-/-- `urllib.parse.unquote` for escapes below 0x80; anything else is kept as written. -/
-def unquote : List Char → List Char
-  | [] => []
-  | [c] => [c]
-  | [c, d] => [c, d]
-  | c :: a :: b :: rest =>
-    if c == '%' then
-      match hexVal a, hexVal b with
-      | some x, some y => if x * 16 + y < 128 then Char.ofNat (x * 16 + y) :: unquote rest
-                          else c :: unquote (a :: b :: rest)
-      | _, _ => c :: unquote (a :: b :: rest)
-    else c :: unquote (a :: b :: rest)
-termination_by l => l.length
-
-def stripS (s : List Char) : String := Py.strip (String.ofList s)
-
-def detectItems (items : List (List Char)) (acc : OD) : OD :=
-  match items with
-  | [] => acc
-  | item :: rest =>
-    match splitFirst '=' item with
-    | none => detectItems rest acc
-    | some (k, v) =>
-      detectItems rest (OD.set acc (Key.str (stripS k)) (Val.sc (.str (String.ofList (unquote (stripS v).toList)))))
-
-/-- the attribute map the detector builds from the two environment variables (before `Resource(...)` cleans it) -/
-def detect (resAttrs : Option String) (svcName : Option String) : List (Key × Val) :=
-  let m := match resAttrs with
-    | none => []
-    | some s => if s == "" then [] else detectItems (splitOn ',' s.toList) []
-  match svcName with
-  | none => m
-  | some s => if s == "" then m else OD.set m (Key.str serviceNameKey) (Val.sc (.str s))
+/-- the attribute map the detector builds from the two environment variables (before `Resource(...)` cleans it):
+    the TRANSLATED body of `DeepResourceDetector.detect` (`Extracted.Attributes.detectEnv`, vocabulary in
+    Model/ResEnv.lean) -/
+def detect (resAttrs : Option String) (svcName : Option String) : List (Key × Val) := detectEnv resAttrs svcName
 
 /-! ### Resource.create and the plugin fold -/
 
